@@ -157,6 +157,32 @@ def _expr_ty(prog, f, e):
         return t
     if e[0] == "cast":
         return _expr_ty(prog, f, e[2]) if e[1] in ("Transmute", "PtrToPtr") else (e[3] if len(e) > 3 else None)
+    if e[0] == "variant":
+        # payload of Ok / Some / Continue: the first type argument of Result / Option
+        inner = e[1]
+        if isinstance(inner, tuple) and inner and inner[0] in ("call", "callat") and \
+                (inner[1] if inner[0] == "call" else inner[2]) == "branch":
+            a_ = inner[2] if inner[0] == "call" else inner[3]
+            inner = a_[0] if a_ else None
+        t = _expr_ty(prog, f, inner) if inner is not None else None
+        if t and e[2] in ("Ok", "Some", "Continue"):
+            t = re.sub(r"^(&(?:'\w+ )?(?:mut )?)+", "", t.strip())
+            m = re.match(r"^(?:[\w:]*::)?(Result|Option)<(.*)>$", t)
+            if m:
+                from .tables import _split_top
+                parts = _split_top(m.group(2))
+                if parts:
+                    return "(%s,)" % parts[0]       # the payload as a 1-tuple: field 0 selects it
+        return None
+    if e[0] == "field" and isinstance(e[2], str) and e[2].isdigit():
+        bt = _expr_ty(prog, f, e[1])
+        if bt and bt.strip().startswith("(") and bt.strip().endswith(")"):
+            from .tables import _split_top
+            parts = _split_top(bt.strip()[1:-1])
+            k = int(e[2])
+            return parts[k] if k < len(parts) else None
+        if bt is None:
+            return None
     if e[0] == "field" and isinstance(e[2], str):
         bt = _expr_ty(prog, f, e[1])
         if bt:
